@@ -838,184 +838,30 @@ def DVarOk (v : DVar Str Str) : Prop := KeyOk v.fullyname ∧ Idents v.domainNam
 
 instance (v : DVar Str Str) : Decidable (DVarOk v) := by unfold DVarOk; infer_instance
 
-/-- the sound direction of the bare `startswith`: a declaration in the same or an enclosing scope IS recognised -/
-theorem related_of_prefix {d a : DVar Str Str} (h : Scope.related d a = true) : related (encDVar d) (encDVar a) = true := by
-  unfold Scope.related at h
-  simp only [Bool.and_eq_true, decide_eq_true_eq] at h
-  obtain ⟨hdn, hmod, hpre⟩ := h
-  unfold related encDVar
-  simp only [hdn, decide_true, Bool.true_and]
-  obtain ⟨rest, hrest⟩ := (pathPrefix_iff _ _).1 hpre
-  have ha : a.scope = d.scope.join rest := by
-    cases hA : a.scope; cases hD : d.scope
-    simp [hA, hD, Key.join] at hmod hrest ⊢
-    exact ⟨hmod.symm, hrest⟩
-  rw [ha]
-  by_cases hr : rest = []
-  · subst hr
-    have : d.scope.join [] = d.scope := by cases d.scope; simp [Key.join]
-    rw [this]
-    have := startsWith_append_self (encKey d.scope) []
-    simpa using this
-  · rw [encKey_join rest hr]
-    exact startsWith_append_self _ _
+theorem take_eq_iff_pathPrefix (p l : List Str) : decide (l.take p.length = p) = pathPrefix p l := by
+  rw [Bool.eq_iff_iff]
+  simp only [decide_eq_true_eq, pathPrefix_iff]
+  constructor
+  · intro h
+    refine ⟨l.drop p.length, ?_⟩
+    have := (List.take_append_drop p.length l).symm
+    rw [h] at this
+    exact this
+  · rintro ⟨t, rfl⟩; simp
 
-/-! ### when is the bare `startswith` an element-wise prefix test? -/
-
-theorem startsWith_self (a : Str) : Str.startsWith a a = true := by
-  have := startsWith_append_self a []
-  simpa using this
-
-theorem startsWith_append_left (m s t : Str) : Str.startsWith (m ++ s) (m ++ t) = Str.startsWith s t := by
-  induction m with
-  | nil => rfl
-  | cons c cs ih => simp [Str.startsWith, ih]
-
-theorem startsWith_longer (s : Str) (c : Char) (t : Str) : Str.startsWith s (s ++ c :: t) = false := by
-  induction s with
-  | nil => rfl
-  | cons b bs ih => simp [Str.startsWith, ih]
-
-/-- a dot-free pattern cannot see past the first dot -/
-theorem startsWith_dotfree_pat (x : Str) (hx : '.' ∉ x) (y r : Str) :
-    Str.startsWith (y ++ '.' :: r) x = Str.startsWith y x := by
-  induction y generalizing x with
-  | nil =>
-    cases x with
-    | nil => rfl
-    | cons c cs =>
-      have hc : c ≠ '.' := by intro e; subst e; simp at hx
-      have : ('.' == c) = false := by simpa using (Ne.symm hc)
-      simp [Str.startsWith, hc.symm]
-  | cons b bs ih =>
-    cases x with
-    | nil => rfl
-    | cons c cs =>
-      have hcs : '.' ∉ cs := by intro h; exact hx (by simp [h])
-      simp [Str.startsWith, ih cs hcs]
-
-/-- a dot-free string has no prefix that contains a dot -/
-theorem startsWith_dotfree_str (y : Str) (hy : '.' ∉ y) (x t : Str) :
-    Str.startsWith y (x ++ '.' :: t) = false := by
-  induction y generalizing x with
-  | nil => cases x <;> rfl
-  | cons b bs ih =>
-    have hb : b ≠ '.' := by intro e; subst e; simp at hy
-    have hbs : '.' ∉ bs := by intro h; exact hy (by simp [h])
-    cases x with
-    | nil => simp [Str.startsWith, hb]
-    | cons c cs => simp [Str.startsWith, ih hbs cs]
-
-/-- two dot-free heads followed by a dot: the heads must be equal -/
-theorem startsWith_heads (x y : Str) (hx : '.' ∉ x) (hy : '.' ∉ y) (r t : Str) :
-    Str.startsWith (y ++ '.' :: r) (x ++ '.' :: t) = (decide (x = y) && Str.startsWith r t) := by
-  induction y generalizing x with
-  | nil =>
-    cases x with
-    | nil => simp [Str.startsWith]
-    | cons c cs =>
-      have hc : c ≠ '.' := by intro e; subst e; simp at hx
-      simp [Str.startsWith, hc.symm]
-  | cons b bs ih =>
-    have hb : b ≠ '.' := by intro e; subst e; simp at hy
-    have hbs : '.' ∉ bs := by intro h; exact hy (by simp [h])
-    cases x with
-    | nil => simp [Str.startsWith, hb]
-    | cons c cs =>
-      have hcs : '.' ∉ cs := by intro h; exact hx (by simp [h])
-      simp only [List.cons_append, Str.startsWith, ih cs hcs hbs]
-      by_cases hbc : b = c
-      · subst hbc
-        by_cases h2 : cs = bs
-        · simp [h2]
-        · simp [h2]
-      · have : ¬ (c :: cs = b :: bs) := by intro e; injection e with e1 _; exact hbc e1.symm
-        simp [hbc, this]
-
-theorem encName_cons_cons (x y : Str) (ys : List Str) : encName (x :: y :: ys) = x ++ '.' :: encName (y :: ys) := by
-  simp [encName, Str.join, dot]
-
-/-- dotted names: `startswith` = element-wise prefix when no element of the pattern is a proper string prefix of the element
-    of the subject at the same position -/
-theorem startsWith_encName (xs ys : List Str) (hx : Idents xs) (hy : Idents ys) (hxne : xs ≠ []) (hyne : ys ≠ [])
-    (hpf : ∀ p ∈ xs.zip ys, Str.startsWith p.2 p.1 = true → p.1 = p.2) :
-    Str.startsWith (encName ys) (encName xs) = pathPrefix xs ys := by
-  induction xs generalizing ys with
-  | nil => exact absurd rfl hxne
-  | cons x xs' ih =>
-    cases ys with
-    | nil => exact absurd rfl hyne
-    | cons y ys' =>
-      have hX := hx x (by simp)
-      have hY := hy y (by simp)
-      have hhead : Str.startsWith y x = decide (x = y) := by
-        by_cases h : x = y
-        · subst h; simp [startsWith_self]
-        · have : Str.startsWith y x ≠ true := fun e => h (hpf (x, y) (by simp) e)
-          simp [h]
-          cases hh : Str.startsWith y x with
-          | true => exact absurd hh this
-          | false => rfl
-      cases xs' with
-      | nil =>
-        cases ys' with
-        | nil => simp [encName_singleton, pathPrefix_cons_cons, pathPrefix_nil, hhead]
-        | cons y' ys'' =>
-          rw [encName_cons_cons, encName_singleton, startsWith_dotfree_pat x hX.no_dot]
-          simp [pathPrefix_cons_cons, pathPrefix_nil, hhead]
-      | cons x' xs'' =>
-        cases ys' with
-        | nil =>
-          rw [encName_cons_cons, encName_singleton, startsWith_dotfree_str y hY.no_dot]
-          simp [pathPrefix_cons_cons, pathPrefix_cons_nil]
-        | cons y' ys'' =>
-          rw [encName_cons_cons, encName_cons_cons, startsWith_heads x y hX.no_dot hY.no_dot]
-          have := ih (y' :: ys'') (Idents.tail hx) (Idents.tail hy) (by simp) (by simp)
-            (fun p hp h => hpf p (by simp only [List.zip_cons_cons]; exact List.mem_cons_of_mem _ hp) h)
-          rw [this, pathPrefix_cons_cons x y]
-
-/-- keys of one module: `startswith` = element-wise prefix under the same side condition -/
-theorem startsWith_encKey (d a : Key Str Str) (hd : KeyOk d) (ha : KeyOk a) (hmod : d.mod = a.mod)
-    (hpf : ∀ p ∈ d.path.zip a.path, Str.startsWith p.2 p.1 = true → p.1 = p.2) :
-    Str.startsWith (encKey a) (encKey d) = pathPrefix d.path a.path := by
-  cases d with
-  | mk dm dp =>
-  cases a with
-  | mk am ap =>
-  simp only at hmod hpf ⊢
-  subst hmod
-  cases dp with
-  | nil =>
-    cases ap with
-    | nil => simp [encKey, startsWith_self, pathPrefix_nil]
-    | cons y ys =>
-      have : encKey (⟨dm, y :: ys⟩ : Key Str Str) = dm ++ ('#' :: Str.join dot (y :: ys)) := by simp [encKey]
-      rw [this]
-      simp [encKey, startsWith_append_self, pathPrefix_nil]
-  | cons x xs =>
-    cases ap with
-    | nil =>
-      have : encKey (⟨dm, x :: xs⟩ : Key Str Str) = dm ++ ('#' :: Str.join dot (x :: xs)) := by simp [encKey]
-      rw [this]
-      simp [encKey, startsWith_longer, pathPrefix_cons_nil]
-    | cons y ys =>
-      have h1 : encKey (⟨dm, x :: xs⟩ : Key Str Str) = dm ++ ('#' :: encName (x :: xs)) := by simp [encKey, encName]
-      have h2 : encKey (⟨dm, y :: ys⟩ : Key Str Str) = dm ++ ('#' :: encName (y :: ys)) := by simp [encKey, encName]
-      rw [h1, h2, startsWith_append_left]
-      simp only [Str.startsWith]
-      exact startsWith_encName (x :: xs) (y :: ys) hd.2 ha.2 (by simp) (by simp) hpf
-
-/-- exact refinement of the test of `_merged` for declarations of one module whose scope elements are prefix-free -/
-theorem related_enc_prefixFree (d a : DVar Str Str) (hd : DVarOk d) (ha : DVarOk a) (hmod : d.scope.mod = a.scope.mod)
-    (hpf : ∀ p ∈ d.scope.path.zip a.scope.path, Str.startsWith p.2 p.1 = true → p.1 = p.2) :
+/-- the (repaired) test of `_merged` on strings is the element-wise test, for every pair of well-formed declarations -/
+theorem related_enc (d a : DVar Str Str) (hd : DVarOk d) (ha : DVarOk a) :
     related (encDVar d) (encDVar a) = Scope.related d a := by
   unfold related Scope.related encDVar
   simp only
-  rw [startsWith_encKey d.scope a.scope hd.2.2 ha.2.2 hmod hpf]
+  rw [expanded_encKey hd.2.2, expanded_encKey ha.2.2, take_eq_iff_pathPrefix]
   have h1 : decide (encName d.domainName = encName a.domainName) = decide (d.domainName = a.domainName) := by
     apply decide_eq_decide.2
     exact ⟨fun h => encName_inj hd.2.1 ha.2.1 h, fun h => by rw [h]⟩
   rw [h1]
-  simp [hmod]
+
+theorem encDVar_key_iff (a b : DVar Str Str) (ha : DVarOk a) (hb : DVarOk b) :
+    (encDVar a).fullyname = (encDVar b).fullyname ↔ a.fullyname = b.fullyname :=
+  ⟨fun e => encKey_inj _ _ ha.1 hb.1 e, fun e => by simp only [encDVar, e]⟩
 
 end Tranp.ScopeStr
